@@ -12,6 +12,7 @@
     chain <reuse> <fid|delta> <enc> <param> <hex>                    -> "init=0 out=<hex>" | "init=8": the whole stream through the filter
     mblock <reuse> <fid|delta> <param> <hex> <cut,...>               -> "rt=1 blocks=<hex>,<hex>,...": each non-empty piece filtered on its own
     dirty <fid|delta> <enc> <param> <hex>                            -> "ok"
+    setalloc <8 sizes, encoder> <8 sizes, decoder>                   -> "ok": temporary-buffer size per filter as the harness op `params` reports it
     cov <fid> <now_pos> <hex>                                        -> branch statistics of the encoder on this buffer (model only; evidence)
   fid: x86 powerpc ia64 arm armthumb sparc arm64 riscv;  enc: 1 = encoder, 0 = decoder;  next: 0 = NULL, 1 = pass-through;
   act: 0 RUN, 1 SYNC_FLUSH, 2 FULL_FLUSH, 3 FINISH.
@@ -211,8 +212,20 @@ def blockCov (f : FilterId) (pc0 : BitVec 32) (bs : List UInt8) : String := Id.r
 def listOf {α : Type} (f : String → Option α) (s : String) : Option (List α) :=
   if s == "-" then some [] else (s.splitOn ",").mapM f
 
+/-- Driver state: size of `lzma_simple_coder.buffer[]` per filter (encoder, decoder) in the tree under test, as reported by the
+    harness op `params` and passed in with `setalloc`; empty = the reference value `2 * unfiltered_max`. Any value ≥ that gives the
+    same stream bytes; following the tree keeps the per-call comparison meaningful when the buffer is retuned. -/
+abbrev Alloc := List (Nat × Nat)
+
+def allocOf (tab : Alloc) (f : FilterId) (enc : Bool) : Nat :=
+  let i := match f with
+    | .x86 => 0 | .powerpc => 1 | .ia64 => 2 | .arm => 3 | .armthumb => 4 | .sparc => 5 | .arm64 => 6 | .riscv => 7
+  match tab[i]? with
+  | some (ae, ad) => if enc then ae else ad
+  | none => 2 * f.unfilteredMax
+
 /-- the whole byte string through one filter (BCJ: one `simple_code` call with LZMA_FINISH; delta: in 4 KiB pieces); `none` = init error -/
-def wholeFilter (name : String) (enc : Bool) (param : Nat) (bs : List UInt8) : Option (List UInt8) :=
+def wholeFilter (tab : Alloc) (name : String) (enc : Bool) (param : Nat) (bs : List UInt8) : Option (List UInt8) :=
   if name == "delta" then
     if !Delta.distValid param then none
     else Id.run do
@@ -229,16 +242,16 @@ def wholeFilter (name : String) (enc : Bool) (param : Nat) (bs : List UInt8) : O
     match fidOf name with
     | none => none
     | some f =>
-      match Coder.init f enc Next.passthrough (BitVec.ofNat 32 param) with
+      match Coder.init f enc Next.passthrough (BitVec.ofNat 32 param) (allocOf tab f enc) with
       | none => none
       | some c => some (simpleCode c bs bs.length Action.finish).2.out
 
-def stepCore (_ : Unit) (ws : List String) : Unit × String :=
+def stepCore (tab : Alloc) (ws : List String) : Unit × String :=
   match ws with
   | ["chain", _, name, enc, param, hx] =>
     match boolOf enc, param.toNat?, parseHex hx with
     | some e, some pa, some bs =>
-      match wholeFilter name e pa bs with
+      match wholeFilter tab name e pa bs with
       | none => ((), s!"init={LZMA_OPTIONS_ERROR}")
       | some o => ((), s!"init=0 out={toHex o}")
     | _, _, _ => ((), "bad-op")
@@ -255,7 +268,7 @@ def stepCore (_ : Unit) (ws : List String) : Unit × String :=
           let (stop, last) := if v < n then ((if v < start then start else v), false) else (n, true)
           let piece := (bs.drop start).take (stop - start)
           if !piece.isEmpty then
-            match wholeFilter name true pa piece with
+            match wholeFilter tab name true pa piece with
             | none => bad := true
             | some o => blocks := blocks.push (toHex o)
           start := stop
@@ -305,7 +318,7 @@ def stepCore (_ : Unit) (ws : List String) : Unit × String :=
   | ["stream", fid, enc, nx, so, hx, sls] =>
     match fidOf fid, boolOf enc, nextOf nx, so.toNat?, parseHex hx, listOf sliceOf sls with
     | some f, some e, some nx, some so, some bs, some sls =>
-      match Coder.init f e nx (BitVec.ofNat 32 so) with
+      match Coder.init f e nx (BitVec.ofNat 32 so) (allocOf tab f e) with
       | none => ((), s!"init={LZMA_OPTIONS_ERROR}")
       | some c => ((), "init=0 " ++ runStream simpleCode c bs sls)
     | _, _, _, _, _, _ => ((), "bad-op")
@@ -344,10 +357,14 @@ def stepCore (_ : Unit) (ws : List String) : Unit × String :=
   | _ => ((), "bad-op")
 
 /-- the reused-handle variants are answered like the fresh-handle ops: the model's init does not depend on earlier use -/
-def step (u : Unit) (ws : List String) : Unit × String :=
+def step (tab : Alloc) (ws : List String) : Alloc × String :=
   match ws with
-  | "rstream" :: rest => stepCore u ("stream" :: rest)
-  | "rdstream" :: rest => stepCore u ("dstream" :: rest)
-  | _ => stepCore u ws
+  | ["setalloc", e, d] =>
+    match listOf String.toNat? e, listOf String.toNat? d with
+    | some es, some ds => (List.zip es ds, "ok")
+    | _, _ => (tab, "bad-op")
+  | "rstream" :: rest => (tab, (stepCore tab ("stream" :: rest)).2)
+  | "rdstream" :: rest => (tab, (stepCore tab ("dstream" :: rest)).2)
+  | _ => (tab, (stepCore tab ws).2)
 
-def main : IO Unit := runLoop step ()
+def main : IO Unit := runLoop step []
